@@ -1,5 +1,6 @@
 import GB.Base.Proto
 import GB.C10.Spec
+import GB.C10.Options
 /-
   C10 driver — judges one case line of harness/c10 (see that file for the line formats).
     tbl <code> => <http>
@@ -380,6 +381,118 @@ def handleE2E (i o : List String) : String :=
         else s!"OK nt {branch}"
   | _, _ => "BAD e2e arity"
 
+/-! ### opts: the root constructor's option plumbing -/
+
+def mimeText : Bytes := ascii "application/x-verif-text"
+def mimePB : Bytes := ascii "application/x-test-pb"
+
+/-- the marshalers of harness/c10/opts.go -/
+def marshalerOfLetter : Char → Option Marshaler
+  | 'j' => some jsonM
+  | 'J' => some { mime := mimeJSON, streams := false, id := 2 }
+  | 't' => some { mime := mimeText, streams := false, id := 1 }
+  | 'b' => some { mime := mimePB, streams := false, id := 3 }
+  | _ => none
+
+def codecOf (m : Marshaler) : String :=
+  if m.id == 0 then "json" else if m.id == 1 then "text" else if m.id == 2 then "J" else "bin"
+
+def parseBOpt (tok : String) : Option BOpt :=
+  if tok == "L" || tok == "F" then some .other
+  else if tok == "M:nil" then some (.withMarshalers none)
+  else if tok == "M:empty" then some (.withMarshalers (some []))
+  else if tok.startsWith "M:" then ((tok.drop 2).toString.toList.mapM marshalerOfLetter).map (fun ms => .withMarshalers (some ms))
+  else if tok == "D:nil" then some (.withDefault none)
+  else if tok.startsWith "D:" then
+    match (tok.drop 2).toString.toList with
+    | [c] => (marshalerOfLetter c).map (fun m => .withDefault (some m))
+    | _ => none
+  else none
+
+def parseBOpts (s : String) : Option (List BOpt) :=
+  if s == "-" then some [] else (s.splitOn ",").mapM parseBOpt
+
+inductive OptSc | ok | fail (code : Nat) | sfail (code : Nat)
+
+def parseOptSc (s : String) : Option OptSc :=
+  if s == "ok" then some .ok
+  else match s.splitOn ":" with
+    | ["fail", c] => c.toNat?.map .fail
+    | ["sfail", c] => c.toNat?.map .sfail
+    | _ => none
+
+/-- expected observation: status, Content-Type, codec, decoded status, decoded message -/
+structure OptExp where
+  status : Nat
+  ct : Bytes
+  codec : String
+  ds : String
+  dm : String
+
+def boomMsg (c : Nat) : Bytes := ascii s!"boom {c}"
+
+/-- what a WebBridge over registry `r` answers (the e2e model `serveWith`, specialised to the three scenarios) -/
+def optExpect (r : Registry) (pm : List (Option Bytes)) (acc : List Bytes) (sc : OptSc) : OptExp :=
+  let ss := match sc with | .sfail _ => true | _ => false
+  match bind r pm acc false ss with
+  | .error e =>
+    let (_, hs) := errorStatus e
+    { status := hs, ct := textPlain, codec := "plain", ds := "-", dm := "-" }
+  | .ok b =>
+    let m := b.resp
+    match sc with
+    | .ok => { status := 200, ct := m.mime, codec := codecOf m, ds := "-", dm := s!"m:{toHex (ascii "n")}:{toHex (ascii "o")}" }
+    | .fail c =>
+      { status := httpStatusFromCode c, ct := m.mime, codec := codecOf m, ds := s!"{c}:{toHex (boomMsg c)}", dm := "-" }
+    | .sfail c =>
+      if !m.streams then
+        { status := 400, ct := m.mime, codec := codecOf m,
+          ds := s!"3:{toHex (ascii "encoding does not support streaming")}", dm := "-" }
+      else { status := httpStatusFromCode c, ct := m.mime, codec := codecOf m, ds := s!"{c}:{toHex (boomMsg c)}", dm := "-" }
+
+def handleOpts (i o : List String) : String :=
+  match i, o with
+  | [os, ct, acc, sc], [st, oct, codec, ds, dm, pm] =>
+    let parsed : Option (List BOpt × List Bytes × OptSc × Nat × Option (List Bytes) × String × String × String × List (Option Bytes)) := do
+      let opts ← (kv? "o" os) >>= parseBOpts
+      let _ ← (kv? "ct" ct) >>= hexList?
+      let acc ← (kv? "acc" acc) >>= hexList?
+      let sc ← (kv? "sc" sc) >>= parseOptSc
+      let st ← (kv? "st" st) >>= String.toNat?
+      let oct ← (kv? "ct" oct) >>= optHexList?
+      let codec ← kv? "codec" codec
+      let ds ← kv? "ds" ds
+      let dm ← kv? "dm" dm
+      let pm ← (kv? "pm" pm) >>= parsePM?
+      pure (opts, acc, sc, st, oct, codec, ds, dm, pm)
+    match parsed with
+    | none => "BAD opts fields"
+    | some (opts, acc, sc, st, oct, codec, ds, dm, pm) =>
+      -- the model of the code: fold of the options, withDefaults, MIME map
+      let r := effectiveRegistry opts
+      -- the specification: what the options mean (C10_options_effective proves the two are the same registry)
+      let rs : Registry := { marshalers := (specMarshalers opts).reverse, default := specDefault opts }
+      let e := optExpect r pm acc sc
+      let es := optExpect rs pm acc sc
+      let obsCt : Bytes := match oct with | some [c] => c | _ => []
+      let same (x : OptExp) : Bool := st == x.status && obsCt == x.ct && codec == x.codec && ds == x.ds && dm == x.dm
+      let isFail := match sc with | .ok => false | _ => true
+      let acceptNamed := acc.findSome? rs.lookup
+      let branch := s!"b=opts.{es.codec}" ++ (if es.status == 415 then ".415" else if isFail then ".error" else ".ok")
+      if same es then
+        (if same e then s!"OK nt {branch}" else s!"DIFF model: st={e.status} ct={bytesToString e.ct} codec={e.codec} ds={e.ds}")
+      else
+        let why :=
+          if st == 415 && (negotiatedReq rs pm).isSome then "registered-type-refused-415"
+          else if acceptNamed.isSome && (obsCt != es.ct || codec != es.codec) then "accept-ignored"
+          else if isFail && (obsCt != es.ct || codec != es.codec) then "error-body-wrong-codec"
+          else if isFail && st == es.status && ds != es.ds then "error-body-not-decodable-with-negotiated-codec"
+          else if st != es.status then "wrong-http-status"
+          else if !isFail && (obsCt != es.ct || codec != es.codec) then "success-body-wrong-codec"
+          else "success-body"
+        s!"VIOL {why} want: st={es.status} ct={bytesToString es.ct} codec={es.codec} ds={es.ds} dm={es.dm} (marshalers in force: {(specMarshalers opts).map codecOf}, default: {codecOf (specDefault opts)})"
+  | _, _ => "BAD opts arity"
+
 def handle : Handler
   | ["tbl", c], [out] => handleTbl c out
   | "cvt" :: [e], out => handleCvt e out
@@ -389,6 +502,10 @@ def handle : Handler
   | "e2e" :: _, "PANIC" :: why => s!"VIOL panic {" ".intercalate (why.map (fun h => (parseHex h).map bytesToString |>.getD h))}"
   | "e2e" :: _, "SRVERR" :: why => s!"VIOL server-connection-failed {" ".intercalate (why.map (fun h => (parseHex h).map bytesToString |>.getD h))}"
   | "e2e" :: i, o => handleE2E i o
+  | "opts" :: _, "CRASH" :: why => s!"VIOL process-crash {" ".intercalate (why.map (fun h => (parseHex h).map bytesToString |>.getD h))}"
+  | "opts" :: _, "HANG" :: why => s!"VIOL hang {" ".intercalate (why.map (fun h => (parseHex h).map bytesToString |>.getD h))}"
+  | "opts" :: _, "PANIC" :: why => s!"VIOL panic {" ".intercalate (why.map (fun h => (parseHex h).map bytesToString |>.getD h))}"
+  | "opts" :: i, o => handleOpts i o
   | _, _ => "BAD c10 line"
 
 end GB.C10
